@@ -144,20 +144,42 @@ def run(ctx, rep) -> None:
     ok = bool(loops) and bool(grant) and all(g.lineno > loops[0].end_lineno for g in grant) and norm(loops[0].iter) == "message_ids" \
         and not any(isinstance(x, (ast.Break, ast.Return)) for x in ast.walk(loops[0]))
     rep.check(ok, "C09.R3", "hydrate grants authority only after loading every id", "grant after the complete loop over message_ids, no break/return inside", f, hy.lineno, disc="after-loop")
-    # _hydrate_deduplicator
+    # _hydrate_deduplicator (the id listing may live in a helper method of the same class)
+    mix = prog.cls("stabilize.queue.processor.mixins", "QueueProcessorMixin")
     hd = prog.func("stabilize.queue.processor.mixins", "QueueProcessorMixin._hydrate_deduplicator")
-    txt = norm(hd.node)
     hyd_calls = list(_calls(hd.node, "hydrate"))
     line = hyd_calls[0].lineno if hyd_calls else hd.node.lineno
-    guards_before = [n for n in hd.node.body if isinstance(n, ast.If) and n.lineno < line and any(isinstance(s, ast.Return) for s in n.body)]
-    gt = [norm(g.test) for g in guards_before]
-    has_none = any("ids is None" in g for g in gt)
-    has_trunc = any(g in ("len(ids) > capacity", "capacity < len(ids)") for g in gt)
-    limit_ok = "limit=capacity + 1" in txt or "limit=capacity+1" in txt.replace(" ", "")
-    rep.check(len(hyd_calls) == 1 and has_none and has_trunc and limit_ok, "C09.R3", "hydration detects an incomplete id set",
-              f"None-guard={has_none} truncation-guard(len(ids) > capacity)={has_trunc} requested limit capacity+1={limit_ok}", hd.file, line, disc="truncation")
-    exc_ret = [h for t in ast.walk(hd.node) if isinstance(t, ast.Try) for h in t.handlers if any(isinstance(s, ast.Return) for s in h.body)]
-    rep.check(bool(exc_ret), "C09.R3", "hydration failure leaves the filter advisory", "exception while listing ids returns without hydrate", hd.file, hd.node.lineno, disc="exc")
+    arg = norm(hyd_calls[0].args[0]) if hyd_calls and hyd_calls[0].args else None
+    src_assign = [n for n in ast.walk(hd.node) if isinstance(n, (ast.Assign, ast.AnnAssign)) and norm(n.targets[0] if isinstance(n, ast.Assign) else n.target) == arg and n.lineno < line]
+    lister = hd
+    caller_none_guard = True
+    if src_assign and isinstance(src_assign[-1].value, ast.Call) and isinstance(src_assign[-1].value.func, ast.Attribute) and norm(src_assign[-1].value.func.value) == "self" \
+            and src_assign[-1].value.func.attr in mix.methods and src_assign[-1].value.func.attr != "_hydrate_deduplicator":
+        lister = mix.methods[src_assign[-1].value.func.attr]
+        caller_none_guard = any(isinstance(n, ast.If) and norm(n.test) == f"{arg} is None" and any(isinstance(s_, ast.Return) for s_ in n.body) and n.lineno < line for n in ast.walk(hd.node))
+    txt = norm(lister.node)
+    lst_calls = list(_calls(lister.node, "get_processed_message_ids"))
+    lst_line = lst_calls[0].lineno if lst_calls else lister.node.lineno
+    ids_var = None
+    for n in ast.walk(lister.node):
+        if isinstance(n, ast.Assign) and lst_calls and any(c is lst_calls[0] for c in ast.walk(n.value)):
+            ids_var = norm(n.targets[0])
+    guards_after = [n for n in ast.walk(lister.node) if isinstance(n, ast.If) and n.lineno > lst_line and any(isinstance(s_, ast.Return) for s_ in n.body)]
+    gt = [norm(g.test) for g in guards_after]
+    has_none = any(g == f"{ids_var} is None" for g in gt)
+    has_trunc = any(g in (f"len({ids_var}) > capacity", f"capacity < len({ids_var})") for g in gt)
+    limit_ok = bool(lst_calls) and any(k.arg == "limit" and norm(k.value).replace(" ", "") == "capacity+1" for k in lst_calls[0].keywords)
+    cap_def = "capacity = dedup.expected_items" in norm(hd.node) or "capacity = dedup.expected_items" in txt or (lister is not hd and "dedup.expected_items" in norm(src_assign[-1].value))
+    rep.check(len(hyd_calls) == 1 and has_none and has_trunc and limit_ok and cap_def and caller_none_guard, "C09.R3", "hydration detects an incomplete id set",
+              f"listing in {lister.qualname}: None-guard={has_none} truncation-guard(len(ids) > capacity)={has_trunc} requested limit capacity+1={limit_ok} capacity=filter capacity={cap_def} caller returns on None={caller_none_guard}",
+              hd.file, line, disc="truncation")
+    exc_ret = [h for t in ast.walk(lister.node) if isinstance(t, ast.Try) and any(c in list(ast.walk(t)) for c in lst_calls) for h in t.handlers if any(isinstance(s_, ast.Return) for s_ in h.body)]
+    rep.check(bool(exc_ret), "C09.R3", "hydration failure leaves the filter advisory", "exception while listing ids returns without hydrate", lister.file, lister.node.lineno, disc="exc")
+    # the ids handed to hydrate() are read AFTER the filter was cleared: no reset() between reading them and hydrating
+    src_line = src_assign[-1].lineno if src_assign else hd.node.lineno
+    resets_between = [c for c in _calls(hd.node, "reset") if src_line <= c.lineno <= line]
+    rep.check(not resets_between, "C09.R3", "no rotation between reading the processed ids and hydrating", "ids read before reset() miss messages committed in between, yet the filter is declared authoritative" if resets_between else "reset happens before the ids are read",
+              hd.file, resets_between[0].lineno if resets_between else line, disc="reset-order")
     # after reset: re-hydrate in the same branch
     hm = prog.func("stabilize.queue.processor.mixins", "QueueProcessorMixin._handle_message")
     resets = list(_calls(hm.node, "reset"))
